@@ -90,6 +90,9 @@ func genC18s(rng *rand.Rand, tier string, w *bufio.Writer) {
 			}
 			return "-"
 		}
+		var tmu sync.Mutex
+		calls := 0
+		counted, alias := map[int]bool{}, map[int]int{}
 		verifhook.SetHandler(func(hook string, args ...any) {
 			if hook == "swampmap.callback" {
 				if n, _ := args[0].(string); n != swName.Get() {
@@ -116,6 +119,20 @@ func genC18s(rng *rand.Rand, tier string, w *bufio.Writer) {
 			slot, _ := args[2].(*hydra.SwampWaiter)
 			mu.Lock()
 			defer mu.Unlock()
+			// a call whose deferred exit finds its instance closed summons again with the same context: that second
+			// SummonSwamp is another entrant of the protocol and gets a call number of its own
+			if hook == "summon.counted" {
+				if counted[t] {
+					tmu.Lock()
+					calls++
+					alias[t] = calls
+					tmu.Unlock()
+				}
+				counted[t] = true
+			}
+			if a, ok := alias[t]; ok {
+				t = a
+			}
 			switch strings.TrimPrefix(hook, "summon.") {
 			case "counted":
 				c, _ := args[3].(int32)
@@ -143,8 +160,6 @@ func genC18s(rng *rand.Rand, tier string, w *bufio.Writer) {
 		})
 		var wg sync.WaitGroup
 		var closeMu sync.Mutex // one Close / Destroy at a time (their mutual races are not this property's subject)
-		var tmu sync.Mutex
-		calls := 0
 		var old []swamp.Swamp
 		for g := 0; g < gor; g++ {
 			wg.Add(1)
